@@ -159,6 +159,27 @@ def run_index_units(units):
     return out
 
 
+def bshape_clipped_clamped(args, kinds):
+    """index::broadcast_shape with a clipped-integer operand (rendered with the bound extent+1 per axis) whose counterpart is larger than
+    that bound on an axis: the result keeps the clipped operand's bounds and clamps the broadcast extent"""
+    shapes = [a for a in args if isinstance(a, list)]
+    if len(shapes) < 2 or "cl" not in kinds:
+        return False
+    d = max(len(x) for x in shapes)
+    pad = [[1] * (d - len(x)) + list(x) for x in shapes]
+    res = [max(col) for col in zip(*pad)]
+    for x, k, p_ in zip(shapes, kinds, pad):
+        if k != "cl":
+            continue
+        off = d - len(x)
+        for i, e in enumerate(x):
+            if res[off + i] > max(e, 1) + 1:
+                return True
+        if off and any(r > 1 for r in res[:off]):
+            return True
+    return False
+
+
 class C09(e2.ProgenProp):
     id = "C09"
     rule = ("case = one logical computation (an index function call, or a view composition of depth 1..3 with its evaluation) rendered as C++ with a "
@@ -210,6 +231,10 @@ class C09(e2.ProgenProp):
             stats.classes["index-fn:" + u["f"]] = stats.classes.get("index-fn:" + u["f"], 0) + 1
             for k in kinds:
                 stats.classes["attr:" + k] = stats.classes.get("attr:" + k, 0) + 1
+            if u["f"] == "broadcast_shape" and bshape_clipped_clamped(u["args"], kinds) and self._is_known("C09-broadcast-shape-clipped-operand-clamped"):
+                k_ = "excluded_by_known_finding:C09-broadcast-shape-clipped-operand-clamped"
+                stats.rejected[k_] = stats.rejected.get(k_, 0) + 1
+                continue
             if u["f"] == "shape_squeeze" and "cl" in kinds and self._is_known("C09-squeeze-clipped-shape"):
                 stats.rejected["excluded_by_known_finding:C09-squeeze-clipped-shape"] = stats.rejected.get("excluded_by_known_finding:C09-squeeze-clipped-shape", 0) + 1
                 continue
@@ -229,9 +254,12 @@ class C09(e2.ProgenProp):
     def features(self, case, failure):
         f = str(failure)
         if "index" in case:
-            return {"index": case["index"], "has_cl": "cl" in (case.get("kinds") or [])}
+            return {"index": case["index"], "has_cl": "cl" in (case.get("kinds") or []),
+                    "bshape_clamped": case["index"] == "broadcast_shape" and bshape_clipped_clamped(case.get("args") or [], case.get("kinds") or [])}
+        from .. import e2
         return {"path": "eval_col" if f.startswith("eval_col") else ("eval" if f.startswith("eval ") else "lazy"),
-                "uses_clipped": self.uses_clipped(case.get("kinds"))}
+                "uses_clipped": self.uses_clipped(case.get("kinds")),
+                "nostl_either": e2.nostl_either_class({"cfg": case.get("cfg"), "case": case.get("case") or {"stages": []}})}
 
     def replay_external(self, case):
         if "index" in case:
